@@ -180,9 +180,9 @@ PROPS = {
         level_text="(health rule) every sequence of up to 3 (thorough 4) health checks over 28 check shapes x tagged/untagged x strict/non-strict x 4 accepted-status lists through the real checksWithTagPrefix + passingServices against an independent predicate. (configuration step) every set of 1..3 instances of one service over dotted node names and service ids x every pass/fail assignment through the real makeConfig against a fake catalog. (pipeline) breadth-first exploration of registry histories (depth 2 quick, 3 thorough, state de-duplicated) through the real backend, watchers, watchBackend and table installation, with causal quiescence detection; every state compares the active table with the reference.",
         level_note="Blocking-query mode (pollinterval=0). The fake Consul serves consistent snapshots (index monotonic, blocks until change); stale reads and partial failures of Consul are not modelled. State merging key = (registry model, last good table); hidden loop state (svccfg, mancfg, lastTable, watcher indexes) is a function of those after quiescence, and each replay first drives the pipeline back to the initial state and checks the table (differential oracle).",
         units=[
-        unit("c01-health", "registry/consul", ["consul/c14_test.go", "consul/c01_test.go", "consul/c01_cfg_test.go"], "^TestVerifC01"),
+        unit("c01-health", "registry/consul", ["consul/c14_test.go", "consul/c14_watch_test.go", "consul/c01_test.go", "consul/c01_cfg_test.go"], "^TestVerifC01"),
         unit("c01-pipeline", ".", MAIN_COMMON + ["main/c02_hist_test.go", "main/c01_test.go"], "^TestVerifC01", shards={"quick": 4, "thorough": 16}, race=True),
-    ], layers={"quick": ["c01-health", "c01-config", "c01-pipeline"], "thorough": ["c01-health", "c01-config", "c01-pipeline"]}),
+    ], layers={"quick": ["c01-health", "c01-config", "c01-watch", "c01-pipeline"], "thorough": ["c01-health", "c01-config", "c01-watch", "c01-pipeline"]}),
     "C09": dict(level="model_checking", engine="vsched",
         technique="stateless model checking: controlled scheduler over the real ServeTCP of the three TCP proxies (and the websocket relay) with in-memory connections; scenario product x all interleavings up to a preemption bound",
         level_text="For every scenario of the product listener kind x PROXY protocol x client segmentation x close order x reply timing, every interleaving (preemption bound 1 quick, 2 thorough) of client, upstream, ServeTCP and its two copier goroutines is executed on the real proxy code over in-memory connections and the delivered byte streams are checked for prefix/exactly-once/in-order delivery and for completeness towards whichever side finished first.",
@@ -221,7 +221,7 @@ LAYER_UNIT = {"c06-sched": "c06", "c03-select": "c03", "c03-lookuphost": "c03", 
               "c07-request": "c07", "c07-response": "c07", "c07-wire": "c07", "c07-history": "c07", "c08-headers": "c08", "c08-websocket": "c08", "c09-tunnels": "c09", "c09-proxyline": "c09-sockets", "c09-websocket": "c09-ws",
               "c10-sni": "c10", "c12-rules": "c12-rules", "c13-inputs": "c13", "c13-sched": "c13", "c14-registrations": "c14", "c14-multi": "c14", "c14-watch": "c14", "c15-sources": "c15-config",
               "c15-robust": "c15-config", "c15-junk": "c15-config", "c16-calls": "c16", "c16-history": "c16", "c19-config": "c19", "c19-behaviour": "c19", "c19-history": "c19", "c20-fields": "c20-logger", "c20-e2e": "c20-formatters",
-              "c20-formats": "c20-logger", "c20-history": "c20-logger", "c20-atoi": "c20-logger", "c01-health": "c01-health", "c01-config": "c01-health", "c11-publish": "c11-select", "c11-issue": "c11-sched"}
+              "c20-formats": "c20-logger", "c20-history": "c20-logger", "c20-atoi": "c20-logger", "c01-health": "c01-health", "c01-config": "c01-health", "c01-watch": "c01-health", "c11-publish": "c11-select", "c11-issue": "c11-sched"}
 
 def layer_unit(pid, layer):
     layer = (layer or "").replace(".race", "")
